@@ -366,9 +366,10 @@ def part_d(ctx, I, budget):
 def run(ctx):
     I = load_impl(ctx)
     q = ctx.tier == "quick"
-    part_d(ctx, I, 25 if q else 250)
-    part_b(ctx, I, 60 if q else 450)
-    part_c(ctx, I, 100 if q else 800)
+    part_d(ctx, I, 240 if q else 900)
+    part_a(ctx, I, 360 if q else 1200)
+    part_b(ctx, I, 420 if q else 1500)
+    part_c(ctx, I, 540 if q else 2400)
     return ctx.finish("proof", "C01_point / C01_importances / C01_consistent: for every size, order (incl. any tie-break the sort returned), labelling and utility the "
                       "modelled kernel returns the Shapley value of the (mean) 1-NN game; this run tied the model to the rebuilt Cython kernel, the reference kernel, "
                       "the per-unit reduction and the end-to-end score() call.", RULE)
